@@ -533,7 +533,14 @@ def _grammar(ctx, model, table):
                                           ("Const", 2)))),
             ("v+3/4", ("Sum", (V[0], ("Quotient", ("Const", 3), ("Const", 4))))),
             ("1/(1/2)", ("Quotient", ("Const", 1),
-                         ("Quotient", ("Const", 1), ("Const", 2))))):
+                         ("Quotient", ("Const", 1), ("Const", 2)))),
+            # operands whose C text has integer type without being literals
+            ("(1+2)/2", ("Quotient", ("Sum", (("Const", 1), ("Const", 2))),
+                         ("Const", 2))),
+            ("(3*5)/2", ("Quotient", ("Product", (("Const", 3), ("Const", 5))),
+                         ("Const", 2))),
+            ("v**0/4", ("Quotient", ("Power", V[0], ("Const", 0)),
+                        ("Const", 4)))):
         try:
             s_ = printer.print(t, 0)
             back = cparser.parse(s_)
@@ -609,6 +616,16 @@ def _grammar(ctx, model, table):
         "Power-exp-2-of-product": ("Quotient", c, ("Power", ("Product", (a, b)),
                                                    ("Const", 2))),
         "Power-exp-2-in-remainder": ("Remainder", c, ("Power", a, ("Const", 2))),
+        # u**1 is written as u: parentheses that the enclosing operator
+        # decides by the class of its operand (a Power here) must still come
+        "Power-exp-1-of-remainder-in-product": ("Product", (c, ("Power", (
+            "Remainder", a, b), ("Const", 1)))),
+        "Power-exp-1-of-product-in-remainder": ("Remainder", c, ("Power", (
+            "Product", (a, b)), ("Const", 1))),
+        "Power-exp-1-of-product-in-quotient": ("Quotient", c, ("Power", (
+            "Product", (a, b)), ("Const", 1))),
+        "Power-exp-1-of-quotient-in-quotient": ("Quotient", c, ("Power", (
+            "Quotient", a, b), ("Const", 1))),
         "Remainder-in-product-3": ("Product", (a, b, ("Remainder", c, d))),
         "Comparison-ops": ("LogicalAnd", (("Comparison", a, "<=", b),
                                           ("Comparison", c, "!=", d))),
